@@ -43,7 +43,27 @@ SYN = {
  "C09": ("TLA+ alpha-equivalence of open sub-formulae by brute-force bijections and independent occurrence counting (Scope.tla) on recorded canonical forms and duplicate maps (Trace_Scope 'c09canon', 'c09dups')",
          "Every pair of sub-formulae of every generated list; every reported duplicate."),
 }
+CLI_NOTE = ("Trusted: TLC; the network parsers of biodivine-lib-param-bn; BDD text serialisation and zip framing are not modelled "
+            "(observed only through reloaded sets); stdout is split into lines mechanically. Small networks, seeded inputs.")
+CLI = {
+ "C16": ("archive as a map in TLA+ (Trace_Arch.RoundTrip); trace validation of build_result_archive -> zip directory -> model re-parse -> load_bdd_bundle, explicit sets before/after, wild-card probe",
+         "Label->set maps incl. empty, full, beyond-unit and result sets, on aeon / bnet / sbml inputs, k = 0..2; reloaded sets, entry list, formula list and model judged by TLC."),
+ "C17": ("state machine of one tool run in TLA+ (Cli.tla); path-wise trace validation by TLC of the binary's stdout lines, exit status and -o archive against it (Trace_Cli.tla), reference sets from the library API",
+         "Every recorded run is an independent behaviour: the machine runs, the recorded lines are consumed against its output; order, texts, the three counts, exhaustive state lists, archived sets, and message-not-crash for failure scenarios."),
+}
 checks = []
+for pid, (tech, text) in CLI.items():
+    checks.append({
+        "property_id": pid,
+        "quick_cmd": "./check %s --tier quick" % pid,
+        "thorough_cmd": "./check %s --tier thorough" % pid,
+        "evidence_file": "evidence/%s.json" % pid,
+        "replay_cmd_template": "./check %s --replay {path}" % pid,
+        "engine": "tlc-trace-cli",
+        "level_claimed": {"category": "model_checking", "text": text, "design_ref": "DESIGN.md section 8 (%s), 14" % pid},
+        "level_note": CLI_NOTE,
+        "technique": tech,
+    })
 for pid, (tech, text) in SYN.items():
     checks.append({
         "property_id": pid,
@@ -78,6 +98,8 @@ m = {
            "baseline_off_cmd": "cd /repo && cargo test --workspace --no-fail-fast --offline",
            "source_commits": hook_commits, "add_only": True},
  "engines": [
+   {"name": "tlc-trace-cli", "path": "spec/Cli.tla, spec/Trace_Cli.tla, spec/Trace_Arch.tla", "serves_properties": sorted(CLI),
+    "kind_free_text": "TLC validates recorded runs of the hctl-model-checker binary path-wise against the Cli.tla state machine, and archive round trips against the archive-as-map predicate"},
    {"name": "tlc-trace-syn", "path": "spec/Trace_Syn.tla, spec/Trace_Scope.tla", "serves_properties": sorted(SYN),
     "kind_free_text": "TLC evaluates Syntax.tla / Scope.tla on events recorded from the real tokenizer, parser, constructors, preprocessing, canonisation and duplicate marking (hctl-conf syn)"},
    {"name": "tlc-trace-sem", "path": "spec/Trace_Sem.tla", "serves_properties": sorted(CHECKS),
@@ -85,7 +107,7 @@ m = {
  ],
  "checks": checks,
  "not_applicable": [{"property_id": p["id"], "reason": "check not built yet (build in progress; see DESIGN.md section 8 for the plan)"}
-                    for p in props if p["id"] not in CHECKS and p["id"] not in SYN],
+                    for p in props if p["id"] not in CHECKS and p["id"] not in SYN and p["id"] not in CLI],
  "notes": "Driver: ./check <ID> [--tier quick|thorough] [--seed N] [--replay FILE]; exit 0 held / 1 VIOLATION / 2 tool error. Known findings: known_findings.json.",
 }
 json.dump(m, open(os.path.join(VERIF, "MANIFEST.json"), "w"), indent=1)
